@@ -50,3 +50,57 @@ func GovcC06MdotMDerivative() {
     }
   }
 }
+
+// Jacobian and Hessian helpers: the matrices of first / second partial derivatives of the supplied
+// function at a symbolic point; the point itself is left unchanged (no derivatives activated on it).
+func GovcC06JacobianHessian() {
+  x0, x1 := govcSym("x0"), govcSym("x1")
+  govcAssume(x1 != 0.0)
+  x := NewDenseReal64Vector([]float64{x0, x1})
+  f := func(v ConstVector) ConstVector {
+    r := NullDenseReal64Vector(2)
+    t := NullReal64()
+    // f0 = v0*v1*v1 + v0,  f1 = v0/v1
+    t.Mul(v.ConstAt(0), v.ConstAt(1))
+    t.Mul(t, v.ConstAt(1))
+    r.At(0).Add(t, v.ConstAt(0))
+    r.At(1).Div(v.ConstAt(0), v.ConstAt(1))
+    return r
+  }
+  g := func(v ConstVector) ConstScalar {
+    // g = v0*v0*v1 + v1*v1*v1
+    t := NullReal64()
+    s := NullReal64()
+    t.Mul(v.ConstAt(0), v.ConstAt(0))
+    t.Mul(t, v.ConstAt(1))
+    s.Mul(v.ConstAt(1), v.ConstAt(1))
+    s.Mul(s, v.ConstAt(1))
+    r := NullReal64()
+    r.Add(t, s)
+    return r
+  }
+  wantJ := []float64{x1*x1 + 1, 2*x0*x1, 1/x1, -x0/(x1*x1)}
+  wantH := []float64{2*x1, 2*x0, 2*x0, 6*x1}
+  for k, m := range []Matrix{NullDenseFloat64Matrix(2, 2), NullSparseFloat64Matrix(2, 2), NullDenseReal64Matrix(2, 2)} {
+    for i := 0; i < 2; i++ {
+      for j := 0; j < 2; j++ {
+        m.At(i, j).SetFloat64(7.0)
+      }
+    }
+    m.Jacobian(f, x)
+    for i := 0; i < 2; i++ {
+      for j := 0; j < 2; j++ {
+        govcCheckEq(fmt.Sprintf("J%d[%d,%d]", k, i, j), m.ConstAt(i, j).GetFloat64(), wantJ[i*2+j])
+      }
+    }
+    m.Hessian(g, x)
+    for i := 0; i < 2; i++ {
+      for j := 0; j < 2; j++ {
+        govcCheckEq(fmt.Sprintf("H%d[%d,%d]", k, i, j), m.ConstAt(i, j).GetFloat64(), wantH[i*2+j])
+      }
+    }
+  }
+  govcCheck("x-unchanged-order", x.ConstAt(0).GetOrder() == 0 && x.ConstAt(1).GetOrder() == 0)
+  govcCheckEq("x-unchanged[0]", x.ConstAt(0).GetFloat64(), x0)
+  govcCheckEq("x-unchanged[1]", x.ConstAt(1).GetFloat64(), x1)
+}
